@@ -246,6 +246,14 @@ def generate(model: Model):
             for fn in (x for x in cdef.body if isinstance(x, ast.FunctionDef) and x.name == "_simplify_down"):
                 # rename the override away: the class inherits the logical rule again
                 yield "mutant", f"revert:physical-twin-inherits-logical-rule:{cdef.name}", "R11h", mod.rel, _splice(mod.source, fn, ast.unparse(fn).replace("def _simplify_down(", "def _simplify_down_disabled(", 1).replace("\n", "\n    "))
+        for cdef in (x for x in tree.body if isinstance(x, ast.ClassDef) and x.name in ("MaybeAlignPartitions", "OpAlignPartitions")):
+            for fn in (x for x in cdef.body if isinstance(x, ast.FunctionDef) and x.name == "_lower"):
+                for b_ in (x for x in ast.walk(fn) if isinstance(x, ast.BoolOp) and isinstance(x.op, ast.And) and "len(self.divisions) == 2" in ast.unparse(x) and "npartitions == 1" in ast.unparse(x)):
+                    yield "mutant", f"revert:align-shortcut-two-divisions:{cdef.name}", "R02d", mod.rel, _splice(mod.source, b_, "len(self.divisions) == 2")
+                    break
+        for fn in (x for x in tree.body if isinstance(x, ast.FunctionDef) and x.name == "calc_divisions_for_align"):
+            for st in (x for x in fn.body if isinstance(x, ast.If) and "dfs[0].divisions" in ast.unparse(x.test)):
+                yield "mutant", "revert:align-identical-divisions-dedup", "R02d", mod.rel, _drop_stmt(mod, st)
         for cdef in (x for x in tree.body if isinstance(x, ast.ClassDef) and x.name in ("Head", "Tail")):
             for fn in (x for x in cdef.body if isinstance(x, ast.FunctionDef) and x.name == "_simplify_up"):
                 for c_ in (x for x in ast.walk(fn) if isinstance(x, ast.Compare) and isinstance(x.ops[0], ast.In) and ast.unparse(x.comparators[0]) == "parent._parameters"):
